@@ -373,6 +373,61 @@ theorem emu_shows_application_now (dec : String → G) (cw : String → Nat) (hs
 def gridF02 : Grid := [[({ g := "61" } : Cell), { g := "57", style := { fg := 16777217 } }]]
 def fiF02 : FrameIn := ⟨true, gridF02, {}, ""⟩
 
+/-- The run over a history passes through the run over each of its prefixes (the emulator model is
+    fed frame after frame; C01's history state advances by `stepHC`). -/
+theorem runFramesC_append (dec : String → G) (cw : String → Nat) :
+    ∀ (a b : List FrameIn) (s : HState) (e : Emu),
+      runFramesC dec cw s e (a ++ b) =
+        (runFramesC dec cw s e a >>= fun e1 => runFramesC dec cw (a.foldl (C01Clip.stepHC cw emuCaps) s) e1 b) := by
+  intro a
+  induction a with
+  | nil => intro b s e; rfl
+  | cons x xs ih =>
+    intro b s e
+    simp only [List.cons_append, runFramesC, List.foldl_cons]
+    cases h : runOps e (opsOfToks dec cw (renderFrameC cw (mkFrame emuCaps s x)).2) with
+    | error p => rfl
+    | ok e1 =>
+      simp only [bind, Except.bind]
+      exact ih b _ e1
+
+/-- **After EVERY frame.** For every `k`, the run over the first `k + 1` frames of an admissible
+    history ends in an emulator state that shows frame `k` — and the run over the whole history passes
+    through that state (`runFramesC_append`). -/
+theorem emu_shows_every_frame (dec : String → G) (cw : String → Nat) (hsp : cw "20" = 1) (hd : dec "20" = [32])
+    (hemp : dec "" = []) (rows cols : Nat) (e0 : Emu) (h0 : DSim dec (startDisplay cols rows) e0 rows cols)
+    (fi0 : FrameIn) (fis : List FrameIn) (hr0 : fi0.refresh = true)
+    (hok : ∀ fi ∈ fi0 :: fis, C01Clip.FrameInOkC cw emuCaps rows cols fi ∧ EmuFrameOk dec cw fi)
+    (k : Nat) (fk : FrameIn) (hk : (fi0 :: fis)[k]? = some fk) :
+    ∃ ek, runFramesC dec cw (startState cols rows) e0 ((fi0 :: fis).take (k + 1)) = .ok ek ∧ ShowsC dec cw fk ek ∧
+      runFramesC dec cw (startState cols rows) e0 (fi0 :: fis) =
+        runFramesC dec cw (((fi0 :: fis).take (k + 1)).foldl (C01Clip.stepHC cw emuCaps) (startState cols rows)) ek
+          ((fi0 :: fis).drop (k + 1)) := by
+  have htake : (fi0 :: fis).take (k + 1) = fi0 :: fis.take k := rfl
+  have hlast : (fi0 :: fis.take k).getLast? = some fk := by
+    rw [← htake, List.getLast?_eq_getElem?]
+    have hlen : k < (fi0 :: fis).length := by
+      rcases Nat.lt_or_ge k (fi0 :: fis).length with h | h
+      · exact h
+      · rw [List.getElem?_eq_none h] at hk; cases hk
+    have : ((fi0 :: fis).take (k + 1)).length = k + 1 := by
+      rw [List.length_take]; simp only [List.length_cons] at hlen ⊢; omega
+    rw [this, List.getElem?_take]
+    simpa using hk
+  obtain ⟨ek, hr, hs, _⟩ := emu_shows_application_now dec cw hsp hd hemp rows cols e0 h0 fi0 (fis.take k) hr0
+    (by
+      intro fi hfi
+      apply hok
+      rcases List.mem_cons.mp hfi with rfl | h
+      · simp
+      · exact List.mem_cons_of_mem _ (List.mem_of_mem_take h))
+    fk hlast
+  refine ⟨ek, by rw [htake]; exact hr, hs, ?_⟩
+  have hsplit : fi0 :: fis = (fi0 :: fis).take (k + 1) ++ (fi0 :: fis).drop (k + 1) := (List.take_append_drop _ _).symm
+  conv => lhs; rw [hsplit]
+  rw [runFramesC_append, htake, hr]
+  rfl
+
 /-- Non-vacuity / the F02 input: a wide glyph in the last column of a 2×1 emulator. The theorem
     applies (no fitting hypothesis) and the emulator shows a blank in the glyph's style there. -/
 example :
